@@ -54,6 +54,10 @@ Step ==
        \* exactly once; a body whose context was cancelled before its first form ran shows no effect
        IF e.val > 1 \/ (e.val = 0 /\ ~cancelTrue) THEN Reject("P1: the body's effect was observed " \o ToString(e.val) \o " times")
        ELSE l' = l + 1 /\ UNCHANGED skip /\ Keep
+     ELSE IF e.ev = "bodyctx" THEN
+       \* P5 "changes nothing": the context of the body is cancelled only by a future-cancel that answered true
+       IF e.val = 0 /\ ~cancelTrue THEN Reject("P5: the body's context is cancelled although no future-cancel has answered true")
+       ELSE l' = l + 1 /\ UNCHANGED skip /\ Keep
      ELSE IF e.ev = "inv" THEN
        /\ invDerefRet' = [invDerefRet EXCEPT ![t] = derefReturned] /\ invDoneTrue' = [invDoneTrue EXCEPT ![t] = doneTrue]
        /\ invCancTrue' = [invCancTrue EXCEPT ![t] = cancTrue] /\ invCancelTrue' = [invCancelTrue EXCEPT ![t] = cancelTrue]
